@@ -278,8 +278,12 @@ func (g *treeGen) tree(d int) *m.Expr {
 	})
 	add(1, func() *m.Expr {
 		callee := g.tree(d - 1)
-		if callee.K == "var" || callee.K == "member" {
+		if callee.K == "var" {
 			callee = m.Index(callee, g.atom())
+		}
+		if callee.K == "member" {
+			// o.f(x) is method-call notation; the dynamic call of a field's value needs parentheses
+			callee = m.Group(callee)
 		}
 		return m.DCall(callee, g.tree(d-1))
 	})
